@@ -23,6 +23,11 @@ def json_plus_chain(n):
     return [n]
 
 
+def prog_root():
+    from vlib import work
+    return work.REPO
+
+
 def run(ctx):
     R = ctx.R
     prog = ctx.program(UNITS, thorough_all=False)
@@ -31,6 +36,7 @@ def run(ctx):
     R.assumptions += ["json::operator+ merges recursively with the right operand winning (C25-R4)"]
     R.rule("C26-R1", "operands of each layering `+` chain are ordered by non-decreasing specificity", floor=7)
     R.rule("C26-R2", "layered result has its `modes` subtrees removed before it is returned", floor=3)
+    R.rule("C26-R4", "specificity is resolved per source: the properties handed to getModeSpecificProps / getObjectSpecificProps come from one source, sources are layered after resolution", floor=6)
     R.rule("C26-R3", "mode passed to the helpers is the device's own; the key after \"modes/\" is the mode", floor=8)
 
     def operand_rank(f, e):
@@ -71,6 +77,22 @@ def run(ctx):
                          "a more specific layer (%s) is on the left of a less specific one (%s): the generic/global entry overrides the mode-specific/user entry" % (a[2][:60], b[2][:60]))
     if n_chains < 6:
         raise AnalysisBroken("only %d property layering chains found (floor 6)" % n_chains)
+
+    # ---- R4: precedence is lexicographic (source, then specificity). Resolving generic/mode-specific entries on an already merged
+    #          json lets a global mode-specific entry beat a user generic entry --------------------------------------------------------
+    HELPERS = ("occa::getModeSpecificProps", "occa::getObjectSpecificProps")
+    for f in prog.funcs.values():
+        if f.d.get("tmpl") == "inst" or not f.d["file"].startswith(prog_root()):
+            continue
+        for c in f.walk():
+            if is_call(c) and callee(c) in HELPERS:
+                arg = call_args(c)[-1]
+                merges = [x for x in walk(arg) if x["k"] == "CXXOperatorCallExpr" and x.get("op") in ("+", "+=") and callee(x).startswith("occa::json::operator+")]
+                srcs = sorted({operand_rank(f, o)[0] for m in merges for o in json_plus_chain(m) if operand_rank(f, o)[0] is not None})
+                ok = not merges
+                R.ob("C26-R4", ok, f.q, "single source: %s(..., %s)" % (callee(c).split("::")[-1], render(arg, False)[:50]), f.site(c),
+                     "generic and mode-specific entries are resolved within one source" if ok else
+                     "an already layered json (sources %s) is resolved in one pass: a mode-specific entry of the weaker source (global settings) then overrides a generic entry of the stronger one (user properties)" % srcs)
 
     # ---- R2 --------------------------------------------------------------------------
     for q, want in (("occa::getModeSpecificProps", ["modes"]), ("occa::getObjectSpecificProps", ["modes", "/modes"])):
